@@ -98,22 +98,24 @@ def check(ctx, report):
         if kind == 'mixed':
             # a binary frame around a text body (uint32 length + name-list): text bindings for the body, layout comparison for the frame
             text_bindings(ctx, c, report)
-        if kind in ('binary', 'mixed') and c.name in EVALUATED_CODECS:
-            # a codec whose two loops are decided against the wire format by evaluation (sa/codecs.py): the layout comparison
-            # with its reviewed difference applies only when the functions cannot be evaluated
-            ev = EVALUATED_CODECS[c.name](ctx)
-            if ev['evaluated']:
-                report.count('C01.R1', ev['runs'])
-                for side, text in sorted(ev['problems'].items()):
-                    report.add('C01.R1', '%s@codec[%s]' % (cons, side), text)
-                if not ev['problems']:
-                    report.sample({'rule': 'C01.R1', 'class': c.name, 'verdict': 'codec evaluated against the wire format', 'runs': ev['runs']}, 40)
-                seen_reviewed.add(c.name)
-                continue
-            report.undecided.append('%s: codec not evaluable (%s): layout comparison with its reviewed difference' % (c.name, ev['why']))
         if kind in ('binary', 'mixed'):
             hdr = reviewed.get(c.name, {}).get('strip_header')
             cmpn = compare_class(c, ctx.canon, strip_header=tuple(hdr) if hdr else None)
+            if c.name in EVALUATED_CODECS and (cmpn.diffs or c.name in reviewed):
+                # the two layouts differ in shape (a loop that reads its terminator against one that writes it afterwards, one
+                # wide word split arithmetically against two fields): both functions are evaluated from their own statements
+                # against the wire format the specification gives (sa/codecs.py).  The symbolic comparison stays the judge when
+                # it finds no difference, and when the functions cannot be evaluated
+                ev = EVALUATED_CODECS[c.name](ctx)
+                if ev['evaluated']:
+                    report.count('C01.R1', ev['runs'])
+                    for side, text in sorted(ev['problems'].items()):
+                        report.add('C01.R1', '%s@codec[%s]' % (cons, side), text)
+                    if not ev['problems']:
+                        report.sample({'rule': 'C01.R1', 'class': c.name, 'verdict': 'codec evaluated against the wire format', 'runs': ev['runs']}, 40)
+                    seen_reviewed.add(c.name)
+                    continue
+                report.undecided.append('%s: codec not evaluable (%s): layout comparison decides' % (c.name, ev['why']))
             n_el = len(cmpn.pairs)
             report.count('C01.R1', 1, nontrivial=1 if n_el >= 2 else 0)
             report.count('C01.R2', sum(1 for a, b in cmpn.pairs if a.key is not None and b.val is not None))
